@@ -4,6 +4,8 @@ from .codewrite import *
 from .lifecycle import *
 from . import scans
 
+PER_TARGET = True      # every rule below looks at one target configuration at a time (check.py may fork one worker per target)
+USES_CONTROLS = True
 DECIDED = ("the inductive premises of 'restore g_k..g_1 returns every address to its pre-history content': R2.1 in every normal variant of "
            "every public install root the bytes are saved (read of [addr, addr+n)) before the entry is written, at the same address, and the "
            "guard records (addr, saved, len) with len == bytes written and n >= len; R2.2 the guard's destructor writes exactly "
@@ -119,6 +121,11 @@ def run(ck, models, tier):
         if tm.arch != "arm":
             release_rules(ck, tm, g, "R2.5")
             restore_before_release(ck, tm, g, "R2.5")
+        # ---------------- R2.6 "behaves exactly as before": the restored bytes are what the cores execute - the restoring write is followed
+        # by an instruction-cache flush covering it (C17 R17.1/R17.2 on the destructor)
+        from .c17 import flush_obligations
+        k6 = flush_obligations(ck, tm, ("R2.6", "R2.6"), install=False, restore=True)
+        ck.floor("R2.6", "restoring-writes-checked-for-flush", k6, 1, tm.target)
         # ---------------- R2.3 LIFO
         inj, field, idx, kind = injector_adt(tm, g.adt)
         ck.ob("R2.3", "injector-container", tm.target, inj is not None, "guards are kept in %s.%s : %s<%s>" % (inj, field, kind, short(g.adt or "?")))
